@@ -6,7 +6,7 @@
    raises).  [classify] says how csv/_try_make_number read back the text of a saved string; the
    theorems hold for EVERY such oracle, the reading "non-numeric, non-empty strings" is the
    hypothesis [value_ok]. *)
-From Coq Require Import ZArith List Lia Bool String Ascii Sorted.
+From Coq Require Import ZArith List Lia Bool String Ascii Sorted Permutation.
 From PV Require Import Base.Tok Base.NpSearch Base.NpList C16.Model C16.Spec C03.Model C03.Spec
                        C10.Model C10.Spec C10.Proofs C10.Proofs2 C10.Proofs3 C10.Proofs4.
 Import ListNotations.
@@ -81,6 +81,25 @@ Theorem C10_last_meaning : forall (X Y : Type) (f : X -> option Y) (l : list X) 
   exists pre x post, l = pre ++ x :: post /\ f x = Some y /\ Forall (fun z => f z = None) post.
 Proof. exact @last_some_char. Qed.
 Print Assumptions C10_last_meaning.
+
+(* ---------------------------------------------------------------------------------------------
+   The first sentence of the statement in one theorem, on the history functions the correspondence
+   evaluates.  For EVERY history: if the vector of the last save_spike_clusters (the initial one when
+   there is none) is loadable, a fresh model loads and shows exactly it, and for every field f whose
+   file cluster_<f>.tsv was last written by save_metadata(f, m) ([hist_saved]) it shows, for every
+   key, exactly [saved_get m] -- under the reading spelled out below ([others_silent] etc.). *)
+Theorem C10_last_write_wins :
+  forall (classify : string -> cell) (d0 : disk) (ops : list op),
+  NoDup (map fst (d_files d0)) ->
+  clusters_ok (hist_clusters d0 ops) (d_rest d0) ->
+  exists l, view (run classify d0 ops) = Some l /\
+    v_clusters l = hist_clusters d0 ops /\
+    forall f m, hist_saved ops f = Some m ->
+      f <> "cluster_id"%string -> excluded (meta_name f) = false -> NoDup (map fst m) ->
+      others_silent (d_files (run classify d0 ops)) (meta_name f) f ->
+      forall k, meta_get (v_meta l) f k = saved_get classify m k.
+Proof. exact last_write_wins. Qed.
+Print Assumptions C10_last_write_wins.
 
 (* ---------------------------------------------------------------------------------------------
    Last write wins, metadata.  History: anything, then save_metadata(f, m), then anything that does
@@ -166,6 +185,36 @@ Theorem C10_unreadable_and_info_silent :
   silent f (n, FRaise) /\ silent f (mkname "cluster_info" e, c).
 Proof. intros. split; [apply raise_silent | apply info_silent]. Qed.
 Print Assumptions C10_unreadable_and_info_silent.
+
+(* glob order: the order in which the directory lists its files cannot matter when every field has
+   one source ([one_source]: one visible file that alone may give it values, or none) ... *)
+Theorem C10_glob_order_irrelevant :
+  forall (files files' : list (fname * mfile)) (f : string) (k : value),
+  Permutation files files' -> NoDup (map fst files) -> one_source files f ->
+  meta_get (load_all_metadata files) f k = meta_get (load_all_metadata files') f k.
+Proof. exact glob_order_irrelevant. Qed.
+Print Assumptions C10_glob_order_irrelevant.
+
+(* ... and it does matter otherwise (why the reading excludes a field defined by two files) *)
+Theorem C10_two_sources_order_matters :
+  exists (files files' : list (fname * mfile)) (f : string) (k : value),
+    Permutation files files' /\ NoDup (map fst files) /\
+    meta_get (load_all_metadata files) f k <> meta_get (load_all_metadata files') f k.
+Proof.
+  exists [(mkname "a" Tsv, FTable ["cluster_id"; "g"]%string [[CInt 0; CInt 1]]);
+          (mkname "b" Tsv, FTable ["cluster_id"; "g"]%string [[CInt 0; CInt 2]])],
+         [(mkname "b" Tsv, FTable ["cluster_id"; "g"]%string [[CInt 0; CInt 2]]);
+          (mkname "a" Tsv, FTable ["cluster_id"; "g"]%string [[CInt 0; CInt 1]])], "g"%string, (VInt 0).
+  split; [apply perm_swap|]. split.
+  - constructor; [cbn; intros [H|[]]; discriminate|]. constructor; [intros []|constructor].
+  - vm_compute. discriminate.
+Qed.
+Print Assumptions C10_two_sources_order_matters.
+
+(* the boolean test by which the correspondence checks "at most one visible file defines f" is exact *)
+Theorem C10_defines_checker : forall (c : mfile) (f : string), defines_b c f = true <-> Defines c f.
+Proof. exact defines_b_spec. Qed.
+Print Assumptions C10_defines_checker.
 
 (* the dictionaries of read_tsv / load_metadata compute the declarative reading of a table *)
 Theorem C10_table_reading :
